@@ -200,16 +200,24 @@ fn any_id() -> NodeId {
     NodeId::from(b)
 }
 
+/// pseudo-random port biased to the boundary values (native generators: 0 must not have probability 2^-16)
+fn any_port() -> u16 {
+    match kani::any::<u8>() % 5 {
+        0 => 0,
+        1 => 65535,
+        2 => 1,
+        _ => kani::any::<u16>(),
+    }
+}
+
 fn any_v4() -> SocketAddr {
     let o: [u8; 4] = kani::any();
-    let p: u16 = kani::any();
-    SocketAddr::from((Ipv4Addr::from(o), p))
+    SocketAddr::from((Ipv4Addr::from(o), any_port()))
 }
 
 fn any_v6() -> SocketAddr {
     let o: [u8; 16] = kani::any();
-    let p: u16 = kani::any();
-    SocketAddr::from((Ipv6Addr::from(o), p))
+    SocketAddr::from((Ipv6Addr::from(o), any_port()))
 }
 
 
